@@ -173,9 +173,15 @@ def _cross_session(case, res, A, g, snap, rows0, tag) -> None:  # noqa: ANN001
     job = os.path.join(A.workdir, "xs_job.txt")
     with open(job, "w") as f:
         json.dump({"dir": A.workdir, "zip": zp, "rank": A.rank, "inc_last": bool(case.get("inc_last")), "pre_decode": bool(case.get("pre_decode"))}, f)
+    env = dict(os.environ, PYTHONHASHSEED=str(seed))
+    if seed % 2:
+        # the new session has its own temporary directory (batch schedulers set TMPDIR per job)
+        env["TMPDIR"] = os.path.join(A.workdir, "session_tmp")
+        os.makedirs(env["TMPDIR"], exist_ok=True)
+        res.counters["cross_session_restores_with_private_tmpdir"] += 1
     try:
         try:
-            p = subprocess.run([sys.executable, "-m", "hv.props.c19_child", job], env=dict(os.environ, PYTHONHASHSEED=str(seed)),
+            p = subprocess.run([sys.executable, "-m", "hv.props.c19_child", job], env=env,
                                stdout=subprocess.PIPE, stderr=subprocess.PIPE, text=True, timeout=600)
         except subprocess.TimeoutExpired:
             res.counters["cross_session_timeouts"] += 1        # inconclusive, not a verdict
